@@ -357,8 +357,19 @@ fn check_value(v: &serde_json::Value, shape: &Shape, leaves: &[u64], at: &mut us
             let bits = leaves.get(*at).copied().unwrap_or(0);
             *at += 1;
             let want: Value = serde_json::from_str(&num_text(*k, bits)).unwrap_or(Value::Null);
+            // a float written with more digits than its own shortest text (f32 written as f64) is the
+            // same component as long as it denotes exactly the same value
+            let widened: Option<u64> = match k {
+                Kind::F32 => Some((f32::from_bits(bits as u32) as f64).to_bits()),
+                Kind::F64 => Some(bits),
+                _ => None,
+            };
+            let same_float = |v: &Value| match (widened, v.as_f64()) {
+                (Some(w), Some(g)) => v.is_f64() && g.to_bits() == w,
+                _ => false,
+            };
             match v {
-                Value::Number(_) if *v == want => Ok(()),
+                Value::Number(_) if *v == want || same_float(v) => Ok(()),
                 Value::Number(_) => Err(format!("component {}: JSON holds {} but the value's own text is {}", path.join("."), v, want)),
                 other => Err(format!("component {}: expected a bare number, JSON holds {}", path.join("."), other)),
             }
